@@ -108,6 +108,13 @@ def _(u):
         got = u.run(DS, "TensorDictDatasetFastGeneration.__getitems__", list(chunk), selfobj=ds2, record=False)
         batch = u.run(DS, "TensorDictDatasetFastGeneration.collate_fn", got, record=False)
         _check_batch(u, f"chunk{c}", batch, td, chunk, D, extra=extra)
+    # history: the same dataset object gets the key again with new values (next epoch, baseline updated): the NEW values travel
+    extra2 = u.tensor("extra_second_wrap", (NDATA,), "f")
+    ds3 = u.run(DS, "TensorDictDatasetFastGeneration.add_key", "extra", extra2, selfobj=ds2, record=False)
+    for c, chunk in enumerate(CHUNKS[1:3]):
+        got = u.run(DS, "TensorDictDatasetFastGeneration.__getitems__", list(chunk), selfobj=ds3, record=False)
+        batch = u.run(DS, "TensorDictDatasetFastGeneration.collate_fn", got, record=False)
+        _check_batch(u, f"rewrap.chunk{c}", batch, td, chunk, D, extra=extra2)
 
 
 # ---------------------------------------------------------------------------------------------
@@ -234,3 +241,36 @@ def _(u):
     mod._attrs["current_epoch"] = 2
     u.run(RFM, "REINFORCE.on_train_epoch_end", selfobj=mod, record=False)
     u.prove("epoch-end.last-epoch-no-new-dataset", [x[0] for x in log] == ["callback"])
+
+
+@unit("rollout_baseline.update_policy", file=BLF, func="RolloutBaseline._update_policy", props=("C16", "C17", "C20"))
+def _(u):
+    # the baseline policy is a DEEP copy of the actor taken at update time (it must not follow the actor's later training
+    # steps), moved to the evaluation device; its values are its own greedy roll-out on the baseline's evaluation set
+    log = []
+
+    class _Copied:
+        def __init__(self, how, src):
+            self.how, self.src, self.device = how, src, None
+
+        def to(self, device):
+            self.device = device
+            return self
+
+    u.stub(copy=u.ns(deepcopy=lambda x: _Copied("deep", x), copy=lambda x: _Copied("shallow", x)))
+    actor = u.ns(name="actor")
+    evalset = u.ns(name="evaluation-set")
+    vals = u.ns(mean=lambda: 1.5)
+    rolled = {}
+
+    def rollout(policy, env, batch_size, device, dataset):
+        rolled.update(policy=policy, dataset=dataset, batch_size=batch_size)
+        return u.ns(cpu=lambda: u.ns(numpy=lambda: vals))
+
+    env = u.ns(dataset=lambda batch_size=None: (log.append(("dataset", batch_size)), evalset)[1])
+    bl = u.obj(BLF, "RolloutBaseline", rollout=rollout, bl_alpha=0.05)
+    u.run(BLF, "RolloutBaseline._update_policy", actor, env, 32, "cuda:0", 1000, selfobj=bl, record=False)
+    pol = bl._attrs["policy"]
+    u.prove("update.baseline-is-a-deep-copy-of-the-actor", isinstance(pol, _Copied) and pol.how == "deep" and pol.src is actor and pol.device == "cuda:0")
+    u.prove("update.values-are-the-copy's-own-rollout-on-the-evaluation-set", rolled.get("policy") is pol and rolled.get("dataset") is evalset and rolled.get("batch_size") == 32
+            and bl._attrs["bl_vals"] is vals and bl._attrs["mean"] == 1.5 and log == [("dataset", [1000])])
